@@ -362,7 +362,13 @@ func genCfg(t *rapid.T, o genOpts) Cfg {
 		c.C2S = genSplit(t, "c2s", c.LogSlots, 4, []int{56, 53, 58, 49})
 	}
 	if draw(t, "s2cKind", 3) == 0 {
-		c.S2C = genSplit(t, "s2c", c.LogSlots, 3, []int{39, 30, 42})
+		// 30-bit decoding matrices belong to the sets with a 2^25..2^31 default scale (as shipped); with a 2^40/2^45 scale
+		// they are a low-precision choice of the user for which nothing is announced
+		s2cSizes := []int{39, 42}
+		if b.scheme.LogDefaultScale <= 31 {
+			s2cSizes = []int{30}
+		}
+		c.S2C = genSplit(t, "s2c", c.LogSlots, 3, s2cSizes)
 	}
 
 	// mod1 options
